@@ -96,6 +96,7 @@ type Builder struct {
 	parent *Builder
 	tab    map[string]*Term
 	ctr    *int // id counter shared by a base builder and the per-path builders derived from it
+	rep    map[*Term]*Term // terms proven equal to a constant under the current path condition
 	True   *Term
 	False  *Term
 }
@@ -134,6 +135,26 @@ func (b *Builder) mk(t *Term) *Term {
 	*b.ctr++
 	b.tab[k] = t
 	return t
+}
+
+// r replaces a term by the constant it is known to equal on this path.
+func (b *Builder) r(x *Term) *Term {
+	if b.rep != nil {
+		if c, ok := b.rep[x]; ok {
+			return c
+		}
+	}
+	return x
+}
+
+func (b *Builder) SetRep(x, c *Term) {
+	if x.IsConst() {
+		return
+	}
+	if b.rep == nil {
+		b.rep = map[*Term]*Term{}
+	}
+	b.rep[x] = c
 }
 
 func (b *Builder) Const(v uint64, w int) *Term {
@@ -411,6 +432,7 @@ func evalCmp(op Op, x, y uint64, w int) bool {
 // ---- constructors ----
 
 func (b *Builder) Bin(op Op, x, y *Term) *Term {
+	x, y = b.r(x), b.r(y)
 	if x.W != y.W {
 		panic(fmt.Sprintf("Bin width mismatch %d %d op %d", x.W, y.W, op))
 	}
@@ -504,6 +526,7 @@ func (b *Builder) Add(x, y *Term) *Term { return b.Bin(OpAdd, x, y) }
 func (b *Builder) Sub(x, y *Term) *Term { return b.Bin(OpSub, x, y) }
 
 func (b *Builder) Un(op Op, x *Term) *Term {
+	x = b.r(x)
 	if x.IsConst() {
 		switch op {
 		case OpNot:
@@ -519,6 +542,7 @@ func (b *Builder) Un(op Op, x *Term) *Term {
 }
 
 func (b *Builder) ZExt(x *Term, w int) *Term {
+	x = b.r(x)
 	if x.W == w {
 		return x
 	}
@@ -538,6 +562,7 @@ func (b *Builder) ZExt(x *Term, w int) *Term {
 }
 
 func (b *Builder) SExt(x *Term, w int) *Term {
+	x = b.r(x)
 	if x.W == w {
 		return x
 	}
@@ -557,6 +582,7 @@ func (b *Builder) SExt(x *Term, w int) *Term {
 }
 
 func (b *Builder) Extract(x *Term, hi, lo int) *Term {
+	x = b.r(x)
 	w := hi - lo + 1
 	if lo == 0 && w == x.W {
 		return x
@@ -598,6 +624,7 @@ func (b *Builder) Resize(x *Term, w int, signed bool) *Term {
 }
 
 func (b *Builder) Concat(hi, lo *Term) *Term {
+	hi, lo = b.r(hi), b.r(lo)
 	w := hi.W + lo.W
 	if hi.IsConst() && lo.IsConst() {
 		return b.Const(hi.Val<<uint(lo.W)|lo.Val, w)
@@ -609,6 +636,7 @@ func (b *Builder) Concat(hi, lo *Term) *Term {
 }
 
 func (b *Builder) Ite(c, x, y *Term) *Term {
+	c, x, y = b.r(c), b.r(x), b.r(y)
 	if c.IsTrue() {
 		return x
 	}
@@ -659,6 +687,7 @@ func (b *Builder) Ite(c, x, y *Term) *Term {
 }
 
 func (b *Builder) Not(x *Term) *Term {
+	x = b.r(x)
 	if x.IsConst() {
 		return b.Bool(x.Val == 0)
 	}
@@ -675,6 +704,7 @@ func (b *Builder) nary(op Op, xs []*Term) *Term {
 	seen := map[*Term]bool{}
 	var add func(x *Term) bool
 	add = func(x *Term) bool { // returns true if short-circuits
+		x = b.r(x)
 		if x.IsConst() {
 			if (op == OpBAnd) == (x.Val == 0) {
 				return true
@@ -719,6 +749,7 @@ func (b *Builder) And(xs ...*Term) *Term { return b.nary(OpBAnd, xs) }
 func (b *Builder) Or(xs ...*Term) *Term  { return b.nary(OpBOr, xs) }
 
 func (b *Builder) Cmp(op Op, x, y *Term) *Term {
+	x, y = b.r(x), b.r(y)
 	if x.W != y.W {
 		panic(fmt.Sprintf("Cmp width mismatch %d %d", x.W, y.W))
 	}
@@ -845,7 +876,7 @@ func (b *Builder) Eq(x, y *Term) *Term { return b.Cmp(OpEq, x, y) }
 
 // ---- evaluation under a model ----
 
-type Model map[*Term]uint64 // variables only; missing = 0
+type Model map[string]uint64 // variable name -> value; missing = 0
 
 func (m Model) Eval(t *Term) uint64 {
 	memo := map[*Term]uint64{}
@@ -862,7 +893,7 @@ func (m Model) eval(t *Term, memo map[*Term]uint64) uint64 {
 	var r uint64
 	switch t.Op {
 	case OpVar:
-		r = m[t] & maskB(t.W)
+		r = m[t.Name] & maskB(t.W)
 	case OpAdd, OpSub, OpMul, OpUDiv, OpSDiv, OpURem, OpSRem, OpAnd, OpOr, OpXor, OpShl, OpLShr, OpAShr:
 		r = evalBin(t.Op, m.eval(t.Args[0], memo), m.eval(t.Args[1], memo), t.W)
 	case OpNot:
